@@ -152,6 +152,14 @@ def gen_atom(rng, nts, bound=None):
 
 def gen_formula(rng, nts, depth=2, bound=None):
     r = rng.random()
+    if depth > 0 and r < 0.08:
+        # a disjunction / conjunction of constraints inside a quantifier body, every operand depending on the bound variable
+        leafy = [n for n in nts if n in ("<ch>", "<d>", "<w>", "<val>", "<key>", "<t>", "<len>", "<x>", "<n>")] or nts
+        v = rng.choice(["z", "z", "<x>"])
+        lits = rng.sample(['"a"', '"1"', '"0"', '"b"', '"p"', '"2"', '"c"', '"7"'], 2)
+        c1, c2 = rng.choice(["==", "!="]), rng.choice(["==", "!=", "<"])
+        return (f"{rng.choice(['any', 'all'])}(str({v}) {c1} {lits[0]} {rng.choice(['or', 'or', 'and'])} str({v}) {c2} {lits[1]} "
+                f"for {v} in *{gen_selector(rng, nts, base=rng.choice(leafy), depth=0)})")
     if depth <= 0 or r < 0.35:
         return gen_atom(rng, nts, bound)
     if r < 0.5:
@@ -177,6 +185,12 @@ def gen_formula(rng, nts, depth=2, bound=None):
     inner = gen_atom(rng, nts, v if v.startswith("<") else None)
     if not v.startswith("<"):
         inner = f"str({v}) == " + rng.choice(['"a"', '"1"'])
+    if rng.random() < 0.5:
+        # a formula-level boolean combination inside the quantifier body, every operand depending on the bound variable
+        lits = rng.sample(['"a"', '"1"', '"0"', '"b"', '"p"', '"2"'], 2)
+        op2 = rng.choice(["or", "or", "and"])
+        c1, c2 = rng.choice(["==", "!="]), rng.choice(["==", "!=", "<"])
+        inner = f"str({v}) {c1} {lits[0]} {op2} str({v}) {c2} {lits[1]}"
     return f"{q}({inner} for {v} in *{gen_selector(rng, nts)})"
 
 
